@@ -277,6 +277,73 @@ class Ctx:
         return rec
 
 
+class Partial:
+    """Picklable accumulator used by worker processes; merged into the Ctx by Ctx.pmap."""
+
+    def __init__(self, seed, tier):
+        self.rng = random.Random(seed)
+        self.tier = tier
+        self.evaluations = 0
+        self.dist = {}
+        self.nontrivial = set()
+        self.samples = []
+        self.failures = []
+        self.cases = {}
+        self.traces_validated = 0
+
+    def n(self, quick, thorough):
+        return quick if self.tier == "quick" else thorough
+
+    count = Ctx.count
+    nt = Ctx.nt
+    sample = Ctx.sample
+    fail = Ctx.fail
+
+    def case(self, suite, c):
+        self.cases.setdefault(suite, []).append(c)
+
+
+def _pmap_worker(args):
+    func, seed, tier, item = args
+    import warnings
+    warnings.filterwarnings("ignore")
+    part = Partial(seed, tier)
+    part.rng_item = item
+    try:
+        func(part, item)
+    except Exception:
+        part.fail("harness-worker-crash", traceback.format_exc()[-1500:], {"item": str(item)[:500]})
+    part.rng = None
+    return part
+
+
+def pmap(ctx, func, items, procs=12):
+    """Run func(partial, item) for every item in worker processes (fork); merge results into ctx.
+    Returns dict suite -> list of cases."""
+    import multiprocessing as mp
+
+    seeds = [ctx.rng.getrandbits(48) for _ in items]
+    args = [(func, sd, ctx.tier, it) for sd, it in zip(seeds, items)]
+    cases = {}
+    if procs <= 1 or len(items) <= 1:
+        parts = [_pmap_worker(a) for a in args]
+    else:
+        with mp.get_context("fork").Pool(min(procs, len(items))) as pool:
+            parts = pool.map(_pmap_worker, args, chunksize=1)
+    for part in parts:
+        ctx.evaluations += part.evaluations
+        for k, v in part.dist.items():
+            ctx.dist[k] = ctx.dist.get(k, 0) + v
+        ctx.nontrivial |= part.nontrivial
+        for smp in part.samples:
+            ctx.sample(smp)
+        ctx.failures.extend(part.failures)
+        ctx.traces_validated += part.traces_validated
+        for suite, cs in part.cases.items():
+            cases.setdefault(suite, []).extend(cs)
+    return cases
+
+
 # --------------------------------------------------------------------------
 # findings + verdict + evidence
 # --------------------------------------------------------------------------
